@@ -175,6 +175,7 @@ type HistProfile struct {
 	FutureMeta    bool // C17: more future-dated transactions, and metadata writes aimed at them (history revision 1 is dated at the
 	// transaction's timestamp, later revisions at the write: dates and revisions then disagree in order)
 	PostingsHeavy bool // C25: long postings lists over few accounts, amounts close to the balances
+	AccMetaHeavy  bool // C20 (reads tie): a third of the operations after the first write or delete ACCOUNT metadata
 }
 
 var allOn = Feat{true, true, true, true, true}
@@ -215,6 +216,12 @@ func genHistory(r *Rng, p HistProfile, feat Feat, exec func(Op) OpResult) []Op {
 		k := r.Intn(100)
 		if p.IKHeavy && len(ops) > 0 && r.Chance(25) {
 			k = 99
+		}
+		if p.AccMetaHeavy && r.Chance(30) {
+			k = 72 // account setmeta
+			if r.Chance(30) {
+				k = 90 // account delmeta
+			}
 		}
 		switch {
 		case k < 50 || ntx == 0:
